@@ -50,6 +50,11 @@ def space(tier, seed):
             lst = [base_items[i] for i in idxs]
             for d, top in modes:
                 cases.append(({'kind': 'select', 'items': lst, 'where': None, 'order': None, 'distinct': d, 'top': top, 'group': None, 'join': None}, hdr, False))
+    # scale probe: a 12-column header, two-digit field numbers in items
+    wide_items = [F('a', 10), F('a', 12), F('a', 11, 'a[N]'), F('a', 1), F('a', 13), ('cat', F('a', 10), ('lit', 'x'))]
+    for lst in ([wide_items[0]], [wide_items[1], wide_items[3]], [wide_items[2], wide_items[0], wide_items[4]], [wide_items[5], wide_items[1]], [wide_items[3], wide_items[0], wide_items[1]]):
+        for d, top in modes:
+            cases.append(({'kind': 'select', 'items': lst, 'where': None, 'order': None, 'distinct': d, 'top': top, 'group': None, 'join': None, 'wide': True}, True, False))
     A_ = lambda kind, arg, sp='U': ('agg', kind, sp, arg)
     for hdr in (True, False):
         nm = ('named', 'a', n1, 'attr') if hdr else F('a', 1)
@@ -102,6 +107,9 @@ def run_js_route(sh, res):
     sp_ = space(sh['tier'], sh['seed'])
     cases = []
     for q, hdr, join in sp_['cases'][sh['lo']:sh['hi']]:
+        if q.get('wide'):
+            cases.append((q, [['v%d' % i for i in range(1, 13)]], None, ['w%d' % i for i in range(1, 13)], None))
+            continue
         if q['kind'] == 'select' and any(refql.strip_alias(it)[0] in ('call', 'tuple') or (it[0] == 'list' and q.get('distinct')) for it in q.get('items', [])):
             continue
         cases.append((q, sp_['tables'][0], (sp_['B'] if join else None), (sp_['names'] if hdr else None), (sp_['bnames'] if (hdr and join) else None)))
@@ -135,7 +143,9 @@ def run_shard(sh):
     try:
         for q, hdr, join in sp_['cases'][sh['lo']:sh['hi']]:
             a_names = sp_['names'] if hdr else None
-            for A, B, b_names in ([(A_, (sp_['B'] if join else None), (sp_['bnames'] if (hdr and join) else None)) for A_ in (sp_['tables'] if route == 'table' else sp_['tables'][:1])]
+            if q.get('wide'):
+                a_names = ['w%d' % i for i in range(1, 13)]
+            for A, B, b_names in ([([['v%d' % i for i in range(1, 13)]], None, None)] if q.get('wide') else []) or ([(A_, (sp_['B'] if join else None), (sp_['bnames'] if (hdr and join) else None)) for A_ in (sp_['tables'] if route == 'table' else sp_['tables'][:1])]
                                   + ([(sp_['tables'][0], sp_['Bwide'], (sp_['bnames_wide'] if hdr else None))] if join else [])):
                 exp = refql.evaluate(q, A, B, a_names, b_names)
                 res.evaluations += 1
